@@ -1116,7 +1116,7 @@ def _subsets(items):
             yield list(c)
 
 
-# ---- thorough tier only: the deeper families (the quick tier does not reach this code)
+# ---- thorough tier only: the deeper families (the quick tier reaches this code only through c04_witness_worlds below)
 C04_DEEP_ONE = [[["L2", 2]], [["L3", 2]], [["L4", 1]], [["L4", 2]], [["L5", 1]], [["L5", 2]], [["B5", 1]], [["B5", 2]], [["Y4", 1]], [["Y4", 2]],
                 [["G5", 1]], [["G5", 2]], [["G4", 2]], [["MX", 1]]]
 C04_DEEP_MULTI = [[["B5", 1], ["W", 2]], [["W", 1], ["G5", 1], ["N", 2]], [["N", 1], ["L4", 1], ["W", 1], ["B5", 1]], [["L3", 1], ["N", 2], ["Y4", 1], ["G4", 1]],
@@ -1166,6 +1166,20 @@ def c04_both_worlds(ml, seeds):
                 for s in seeds:
                     out.append(dict(unit="c04", molecules=ml, seed=s, res=skip, coords={"mode": "c+mc", "k": k, "kmc": kmc, "box": C04_BOX}))
     return out
+
+
+# ---- witness worlds (both tiers): the minimal members of family (c) of the thorough tier on which the input classes of their own
+# '-c AND -mc' were observed, one per class.  They are ordinary members of the enumeration: picked out of c04_both_worlds and
+# evaluated by eval_world / check_three_way like every other world (family (c) of the thorough tier enumerates every pair of prefix
+# lengths on larger systems, e.g. PD 2).
+C04_WITNESS_SYSTEM = [["PD", 1]]        # three two-atom residues of one name
+C04_WITNESS_PREFIXES = [(1, 1),         # -c: residue 1, -mc: centre of residue 1         (atoms and centre for the same residue)
+                        (2, 1)]         # -c: residues 1-2, -mc: centre of residue 1      (atoms past the end of the -mc file)
+
+
+def c04_witness_worlds(seeds):
+    return [w for w in c04_both_worlds(C04_WITNESS_SYSTEM, seeds[:1])
+            if not w["res"] and (w["coords"]["k"], w["coords"]["kmc"]) in C04_WITNESS_PREFIXES]
 
 
 def c04_ign_worlds(ml, ign, seeds, modes=("c", "mc"), extra=None):
@@ -1310,13 +1324,19 @@ def run_c04(ctx, res):
             for s in seeds[:1] if not ctx.thorough else seeds[:2]:
                 worlds.append(dict(sw, unit="c04", seed=s, schedule=list(sc), res=sw.get("res", [])))
                 n_sched += 1
+    # ---- -c AND -mc: the witness worlds of the classes observed in the thorough tier (family (c) there)
+    witness = c04_witness_worlds(seeds)
+    worlds += witness
     res.bound = (f"systems {C04_SYSTEMS} (<= 4 molecules, <= 4 residues each): EVERY split the file formats can express = every set of <= 2 residue names given to -res x "
                  f"{{-c (all atoms), -mc (centres)}} x every prefix length k >= 1 of the remaining residues in topology order (whole molecules and cut chains), {nseeds} seeds "
                  f"= {n_split} worlds; -ign W with W at every position of {len(ign_systems)} [molecules] lists, what precedes it supplied or named with -res = {n_ign} worlds; "
                  f"scripted failures: on {len(sched_worlds)} partially supplied systems (incl. 8-residue chain, -nr 1/2/5) every set of <= 2 failing events among the first {L} placement "
                  f"events (event = start-point check or RandomWalk.update_positions call; a failing update runs the real loop with _is_overlap forced True) = {n_sched} worlds. "
-                 "-c together with -mc is not a split (the second file re-reads from the first residue) and is exercised in C03 only")
-    res.rule = ("non-trivial iff distinct, finished, and the split has >= 1 supplied and >= 1 generated residue (for scripted worlds additionally >= 1 forced failure was reached)")
+                 "-c together with -mc is not a split (the second file re-reads from the first residue) and is otherwise exercised in C03 only; "
+                 f"{len(witness)} witness worlds of it: [molecules] {C04_WITNESS_SYSTEM}, prefix lengths (k of -c, kmc of -mc) = {C04_WITNESS_PREFIXES}, no -res, 1 seed "
+                 "(the thorough tier enumerates every pair of prefix lengths)")
+    res.rule = ("non-trivial iff distinct, finished, and the split has >= 1 supplied and >= 1 generated residue (for scripted worlds additionally >= 1 forced failure was reached)"
+                "; with -c AND -mc: non-trivial iff >= 2 of {atoms only, atoms and centre, centre only, neither} occur and not only the first two")
     if ctx.thorough:
         deep_worlds, dc = c04_deep_worlds(ctx, seeds)
         worlds += deep_worlds
@@ -1331,7 +1351,6 @@ def run_c04(ctx, res):
                       f"(e) scripted failures on {dc['sched-systems']} partially supplied systems (chains of 8/10, branched, star, rings, solvents around, -ign, -res of inner residues, -c and -mc, -nr 1..5) x "
                       f"{dc['scheds']} schedules (none; every set of <= 2 failing events among the first 12; every 3 among the first 9; the first n = 4..12 events all fail; every 2nd/3rd/4th event fails, "
                       f"each phase, up to event 24) x 3 seeds = {dc['sched']}")
-        res.rule += ("; with -c AND -mc: non-trivial iff >= 2 of {atoms only, atoms and centre, centre only, neither} occur and not only the first two")
     res.exhaustive = True
     run_worlds("c04-supplied-preserved", worlds, res)
     res.assumptions.append("supplied coordinates come from an own lattice generator (3 decimals), inside the box of the input structure")
